@@ -535,26 +535,33 @@ class SelfPath(Path):
         return "@" + str(self.path)[1:]
 
     def evaluate(self, context: FilterContext) -> object:
-        if isinstance(context.current, str):  # TODO: refactor
+        if isinstance(context.current, str) or not isinstance(
+            context.current, (Sequence, Mapping)
+        ):
             if self.path.empty():
-                return context.current
-            return NodeList()
-        if not isinstance(context.current, (Sequence, Mapping)):
-            if self.path.empty():
-                return context.current
+                # The current node itself. Still a node list of one node, so
+                # existence tests and NodesType function arguments see a node.
+                return NodeList(
+                    [
+                        context.env.match_class(
+                            filter_context=context.extra_context,
+                            obj=context.current,
+                            parent=None,
+                            path=context.env.root_token,
+                            parts=(),
+                            root=context.root,
+                        )
+                    ]
+                )
             return NodeList()
 
         return NodeList(self.path.finditer(context.current))
 
     async def evaluate_async(self, context: FilterContext) -> object:
-        if isinstance(context.current, str):  # TODO: refactor
-            if self.path.empty():
-                return context.current
-            return NodeList()
-        if not isinstance(context.current, (Sequence, Mapping)):
-            if self.path.empty():
-                return context.current
-            return NodeList()
+        if isinstance(context.current, str) or not isinstance(
+            context.current, (Sequence, Mapping)
+        ):
+            return self.evaluate(context)
 
         return NodeList(
             [match async for match in await self.path.finditer_async(context.current)]
